@@ -465,21 +465,32 @@ Proof.
   apply IH. intros H. apply Hn. right. exact H.
 Qed.
 
+Lemma named_flat (es : list (Z * enc)) f :
+  attrs_named f (flat_map enc_xattrs es) = flat_map (fun p => if fst p =? f then enc_xattrs p else []) es
+  /\ elems_tagged f (flat_map enc_xelems es) = flat_map (fun p => if fst p =? f then enc_xelems p else []) es.
+Proof.
+  split.
+  - transitivity (flat_map (fun p => attrs_named f (enc_xattrs p)) es); [apply filter_flat_map|].
+    apply flat_map_ext'. intros p. apply attrs_named_xattrs.
+  - transitivity (flat_map (fun p => elems_tagged f (enc_xelems p)) es); [apply filter_flat_map|].
+    apply flat_map_ext'. intros p. apply elems_tagged_xelems.
+Qed.
+
 Lemma named_in (es : list (Z * enc)) f e : NoDup (map fst es) -> In (f, e) es ->
   attrs_named f (flat_map enc_xattrs es) = enc_xattrs (f, e)
   /\ elems_tagged f (flat_map enc_xelems es) = enc_xelems (f, e).
 Proof.
-  intros Hn Hin. unfold attrs_named, elems_tagged. rewrite !filter_flat_map. split.
-  - rewrite (flat_map_ext' _ _ es (attrs_named_xattrs f)). exact (select_unique enc_xattrs es f e Hn Hin).
-  - rewrite (flat_map_ext' _ _ es (elems_tagged_xelems f)). exact (select_unique enc_xelems es f e Hn Hin).
+  intros Hn Hin. destruct (named_flat es f) as [-> ->]. split.
+  - exact (select_unique enc_xattrs es f e Hn Hin).
+  - exact (select_unique enc_xelems es f e Hn Hin).
 Qed.
 
 Lemma named_notin (es : list (Z * enc)) f : ~ In f (map fst es) ->
   attrs_named f (flat_map enc_xattrs es) = [] /\ elems_tagged f (flat_map enc_xelems es) = [].
 Proof.
-  intros Hn. unfold attrs_named, elems_tagged. rewrite !filter_flat_map. split.
-  - rewrite (flat_map_ext' _ _ es (attrs_named_xattrs f)). exact (select_none enc_xattrs es f Hn).
-  - rewrite (flat_map_ext' _ _ es (elems_tagged_xelems f)). exact (select_none enc_xelems es f Hn).
+  intros Hn. destruct (named_flat es f) as [-> ->]. split.
+  - exact (select_none enc_xattrs es f Hn).
+  - exact (select_none enc_xelems es f Hn).
 Qed.
 
 Lemma elem_value_value_elem f o : elem_value (value_elem f o) = o.
